@@ -16,6 +16,10 @@ func NewBinary2BytesHeader() *Binary2Bytes {
 }
 
 func (h *Binary2Bytes) SetLength(length int) error {
+	if length < 0 {
+		return fmt.Errorf("length %d is negative", length)
+	}
+
 	if length > math.MaxUint16 {
 		return fmt.Errorf("length %d exceeds max length for 2 bytes header %d", length, math.MaxUint16)
 	}
